@@ -6,7 +6,7 @@ use crate::common::*;
 use crate::dbexec::*;
 use crate::dbprog::*;
 use crate::simfs::SimFs;
-use crate::with_db;
+use dbsim::with_db;
 use serde::{Deserialize, Serialize};
 use simcore::{Fnv, Rng};
 
